@@ -49,6 +49,7 @@ struct SchedState {
   arrived: HashMap<u64, usize>,
   done: HashSet<u64>,
   gated: bool,
+  marks: HashSet<String>,
 }
 
 struct Sched {
@@ -111,6 +112,12 @@ impl Sched {
       g = ng;
     }
   }
+  fn mark(&self, m: &str) {
+    self.st.lock().unwrap().marks.insert(m.to_string());
+  }
+  fn has(&self, m: &str) -> bool {
+    self.st.lock().unwrap().marks.contains(m)
+  }
   fn all_done(&self, n: usize) -> bool {
     self.st.lock().unwrap().done.len() >= n
   }
@@ -134,6 +141,10 @@ enum Step {
   Rollback,
   Compact,
   Read,
+  /// open a reader and keep it
+  OpenReader,
+  /// search through the kept reader
+  ReadHeld,
 }
 
 fn step_json(s: &Step) -> Value {
@@ -145,6 +156,8 @@ fn step_json(s: &Step) -> Value {
     Step::Rollback => json!({"op": "rollback", "id": "", "ver": 0}),
     Step::Compact => json!({"op": "compact", "id": "", "ver": 0}),
     Step::Read => json!({"op": "read", "id": "", "ver": 0}),
+    Step::OpenReader => json!({"op": "open_reader", "id": "", "ver": 0}),
+    Step::ReadHeld => json!({"op": "read_held", "id": "", "ver": 0}),
   }
 }
 
@@ -160,6 +173,7 @@ fn run_program(idx: Arc<Index>, name: String, prog: Vec<Step>, sched: Arc<Sched>
   verif::point("thread.start", &name);
   let mut calls = Vec::new();
   let mut writer = None;
+  let mut held: Option<searchlite_core::api::IndexReader> = None;
   for st in prog {
     let r = std::panic::catch_unwind(std::panic::AssertUnwindSafe(|| -> (bool, String, Option<Vec<(String, u64)>>) {
       match &st {
@@ -202,6 +216,39 @@ fn run_program(idx: Arc<Index>, name: String, prog: Vec<Step>, sched: Arc<Sched>
           Ok(_) => (true, String::new(), None),
           Err(e) => (false, format!("{e:#}"), None),
         },
+        Step::OpenReader => {
+          verif::point("harness.read_begin", &name);
+          let out = match idx.reader() {
+            Ok(rd) => {
+              held = Some(rd);
+              (true, String::new(), None)
+            }
+            Err(e) => (false, format!("{e:#}"), None),
+          };
+          sched.mark(&format!("{name}.opened"));
+          verif::point("harness.open_end", &name);
+          out
+        }
+        Step::ReadHeld => {
+          verif::point("harness.held_begin", &name);
+          let out = match held.as_ref() {
+            Some(rd) => match rd.search(&match_all_request(10_000)) {
+              Ok(res) => {
+                let mut c: Vec<(String, u64)> = res
+                  .hits
+                  .into_iter()
+                  .map(|h| (h.doc_id, h.fields.as_ref().and_then(|f| f.get("ver")).and_then(|v| v.as_u64()).unwrap_or(0)))
+                  .collect();
+                c.sort();
+                (true, String::new(), Some(c))
+              }
+              Err(e) => (false, format!("{e:#}"), Some(Vec::new())),
+            },
+            None => (false, "no reader was opened".to_string(), Some(Vec::new())),
+          };
+          verif::point("harness.held_end", &name);
+          out
+        }
         Step::Read => {
           verif::point("harness.read_begin", &name);
           let res = id_ver(&idx);
@@ -250,15 +297,21 @@ fn emit(tr: &mut Tracer, scn: usize, mode: &str, initial: &[(String, u64)], outs
   // k-th section enter of a thread belongs to its k-th sectioned call
   let mut next_call: HashMap<u64, usize> = HashMap::new();
   let mut next_read: HashMap<u64, usize> = HashMap::new();
+  let mut next_open: HashMap<u64, usize> = HashMap::new();
+  let mut next_held: HashMap<u64, usize> = HashMap::new();
   for ev in events.iter().filter(|e| e.op == "point") {
     let Some(name) = names.get(&ev.thread) else { continue };
     let pt = ev.path.clone();
     let detail = ev.path2.clone();
     let out = outs.iter().find(|o| o.tid == ev.thread).unwrap();
     let sectioned: Vec<&(Step, bool, String, Option<Vec<(String, u64)>>)> =
-      out.calls.iter().filter(|c| !matches!(c.0, Step::Read)).collect();
+      out.calls.iter().filter(|c| !matches!(c.0, Step::Read | Step::OpenReader | Step::ReadHeld)).collect();
     let reads: Vec<&(Step, bool, String, Option<Vec<(String, u64)>>)> =
       out.calls.iter().filter(|c| matches!(c.0, Step::Read)).collect();
+    let opens: Vec<&(Step, bool, String, Option<Vec<(String, u64)>>)> =
+      out.calls.iter().filter(|c| matches!(c.0, Step::OpenReader)).collect();
+    let helds: Vec<&(Step, bool, String, Option<Vec<(String, u64)>>)> =
+      out.calls.iter().filter(|c| matches!(c.0, Step::ReadHeld)).collect();
     let is_section = pt.starts_with("writer.") || pt == "index.compact";
     if is_section && detail.starts_with("enter") {
       let k = *next_call.get(&ev.thread).unwrap_or(&0);
@@ -275,6 +328,16 @@ fn emit(tr: &mut Tracer, scn: usize, mode: &str, initial: &[(String, u64)], outs
       *next_read.entry(ev.thread).or_insert(0) += 1;
       let (ok, err, c) = reads.get(k).map(|c| (c.1, c.2.clone(), c.3.clone().unwrap_or_default())).unwrap_or((false, "missing".into(), vec![]));
       tr.emit(json!({"ev": "read_end", "t": name, "ok": ok, "err": err, "contents": idver_json(&c)}));
+    } else if pt == "harness.open_end" {
+      let k = *next_open.get(&ev.thread).unwrap_or(&0);
+      *next_open.entry(ev.thread).or_insert(0) += 1;
+      let (ok, err) = opens.get(k).map(|c| (c.1, c.2.clone())).unwrap_or((false, "missing".into()));
+      tr.emit(json!({"ev": "open_end", "t": name, "ok": ok, "err": err}));
+    } else if pt == "harness.held_end" {
+      let k = *next_held.get(&ev.thread).unwrap_or(&0);
+      *next_held.entry(ev.thread).or_insert(0) += 1;
+      let (ok, err, c) = helds.get(k).map(|c| (c.1, c.2.clone(), c.3.clone().unwrap_or_default())).unwrap_or((false, "missing".into(), vec![]));
+      tr.emit(json!({"ev": "held_read", "t": name, "ok": ok, "err": err, "contents": idver_json(&c)}));
     } else if pt != "thread.start" {
       tr.emit(json!({"ev": "pt", "t": name, "name": pt}));
     }
@@ -326,6 +389,12 @@ fn programs(r: &mut rand::rngs::StdRng, n_writers: usize, compactor: bool, reade
   }
   if reader {
     out.push(("r1".to_string(), (0..r.gen_range(1..=4)).map(|_| Step::Read).collect()));
+    if chance(r, 1, 2) {
+      // a reader that is kept while the writers and the compaction go on
+      let mut p = vec![Step::OpenReader];
+      p.extend((0..r.gen_range(1..=3)).map(|_| Step::ReadHeld));
+      out.push(("h1".to_string(), p));
+    }
   }
   out
 }
@@ -343,6 +412,7 @@ fn run_scenario(scn: usize, seed: u64, mode: &str, schedule: Option<Vec<String>>
       ("w1".to_string(), vec![Step::NewWriter, Step::Add("a".into(), ver - 2), Step::Commit, Step::Add("b".into(), ver - 1), Step::Commit]),
       ("k1".to_string(), vec![Step::Compact]),
       ("r1".to_string(), vec![Step::Read, Step::Read]),
+      ("h1".to_string(), vec![Step::OpenReader, Step::ReadHeld, Step::ReadHeld]),
     ]
   } else {
     let n_writers = r.gen_range(2..=4);
@@ -401,6 +471,17 @@ fn run_scenario(scn: usize, seed: u64, mode: &str, schedule: Option<Vec<String>>
       }
     }
     let mut steps = 0usize;
+    // two of three scenarios: the kept reader is opened first, so that its later searches see
+    // commits and a compaction (with its file cleanup) that happened after the open
+    if chance(&mut r, 2, 3) {
+      let t = tids["h1"];
+      for _ in 0..60 {
+        if sched.has("h1.opened") {
+          break;
+        }
+        sched.grant(t, Duration::from_millis(100));
+      }
+    }
     let sch = schedule.unwrap_or_default();
     let mut i = 0usize;
     // threads whose last grant timed out (they wait on a real lock): not chosen again until
